@@ -198,6 +198,22 @@ func (ck *checker) checkPlant(ctx context.Context, b *Built, t Target) {
 			ck.violate(label+"/dag/wrong-error/"+cls, "ModuleSetToDAG: "+err.Error(), b, t, Case{Error: err.Error()})
 		}
 	}
+	// the remote-dependency report walks the deps of every local module: it must name the ambiguity (or the
+	// cycle a local module is on) when a local module is or reaches a module that imports the ambiguous path
+	localAffected, localCycle := false, false
+	for _, l := range s.locals() {
+		localAffected = localAffected || affected(l)
+		localCycle = localCycle || s.G.onCycle(l)
+	}
+	if localAffected {
+		ck.c.remoteDepsPlantDemands.Add(1)
+		got, err := observeRemoteDeps(ws)
+		if err == nil {
+			ck.violate(label+"/remotedeps/no-error", "RemoteDepsForModuleSet reported dependencies although an ambiguous import is reached from a local module", b, t, Case{Observed: got})
+		} else if cls := errClass(err); cls != want && !(cls == "cycle" && localCycle) {
+			ck.violate(label+"/remotedeps/wrong-error/"+cls, "RemoteDepsForModuleSet: "+err.Error(), b, t, Case{Error: err.Error()})
+		}
+	}
 	// image and ls-files (n = 4: only for the workspace target, to bound the number of compilations)
 	if s.G.N >= 4 && t.Kind != "all" {
 		return
